@@ -31,8 +31,54 @@ def size_arg(t):
 def run(ctx):
     P = 'C19'
     r_alloc(ctx, P)
+    r_quad(ctx, P)
     ceilings(ctx, P)
     rec(ctx, P)
+
+
+SHIFTING = r'Vec::<.*>::(remove|insert|drain|splice)$|VecDeque::<.*>::(remove|insert)$|String::(remove|insert|insert_str|drain|replace_range)$|BytesMut::unsplit$|<\[T\]>::(rotate_left|rotate_right|copy_within)$|slice::<impl \[T\]>::(rotate_left|rotate_right|copy_within)$'
+QUAD_REVIEWED = {
+    'crypto::ecc_curve::asn1_der_object_id_val_enc|insert|0': 'base-128 digits of one OID arc (at most 10 for a u64), not input sized',
+}
+
+
+def r_quad(ctx, P):
+    """`finishes in time linear in the input`: an operation that shifts the whole buffer (Vec::remove / insert / drain, String::insert,
+    BytesMut::unsplit, rotate, copy_within) inside a loop is quadratic in the buffer size.  Every such site in a CFG cycle must be
+    reviewed by exact key."""
+    import callgraph
+    n = 0
+    seen = set()
+    for p, r in sorted(ctx.f.bodies.items()):
+        if panics.skip_body(p, r):
+            continue
+        b = ctx.wrap(r)
+        sites = b.calls(SHIFTING)
+        if not sites:
+            continue
+        edges = {i: set(j for j, _ in b.succ(i)) for i in range(len(b.blocks)) if not b.blocks[i]['c']}
+        inloop = set()
+        for comp in callgraph.sccs(edges):
+            if len(comp) > 1 or comp[0] in edges.get(comp[0], ()):
+                inloop |= set(comp)
+        cnt = collections.Counter()
+        for i, t in sites:
+            fn = t['f']['fn'].split('::')[-1]
+            key = '%s|%s|%d' % (p, fn, cnt[fn])
+            cnt[fn] += 1
+            n += 1
+            if i not in inloop:
+                continue
+            ctx.functions.add(p)
+            seen.add(key)
+            if key in QUAD_REVIEWED:
+                ctx.ok('%s:S19-4:shift-in-loop:%s' % (P, key), 'R-quad', 'reviewed: ' + QUAD_REVIEWED[key], function=p, site=site(b, i))
+            else:
+                ctx.violation('%s:S19-4:shift-in-loop:%s' % (P, key), 'R-quad', 'a buffer-shifting operation (%s) runs inside a loop in %s: quadratic in the buffer size' % (fn, p),
+                              function=p, site=site(b, i), missing='use an index / split / VecDeque::pop_front instead, or review and list the key in QUAD_REVIEWED')
+    ctx.floor(P + ':S19-4:floor', 'buffer-shifting call sites examined', n, 10)
+    stale = sorted(set(QUAD_REVIEWED) - seen)
+    ctx.check(P + ':S19-4:reviewed-fresh', 'R-quad', 'every reviewed shifting site still exists', not stale, missing=stale or None)
 
 
 def r_alloc(ctx, P):
